@@ -59,6 +59,7 @@ type opCtx struct {
 	sharedScalars []fr.Element
 	sharedPoints  []banderwagon.Element
 	sharedPoly    []fr.Element
+	sharedBytes   [][]byte // encodings that several goroutines decode at the same time (decoders only read their input)
 	// inputModified is called when an operation finds a caller-supplied input changed after a call (C13); nil = not checked
 	inputModified func(sig, msg string)
 }
@@ -75,7 +76,51 @@ func newOpCtx(env *Env, seed int64, rng *rand.Rand) *opCtx {
 		o.sharedPoints = append(o.sharedPoints, Rerepresent(&norm, i, rng))
 	}
 	o.sharedPoly = toFr(o.polysV[0])
+	// byte strings handed to decoders by several goroutines at once: canonical little-endian scalars, a wide string for
+	// the reducing decoders, point encodings (built with the reference, no library call)
+	for i := 0; i < 3; i++ {
+		le := ref.LE32(randScalar(rng))
+		o.sharedBytes = append(o.sharedBytes, append([]byte(nil), le[:]...))
+	}
+	wide := make([]byte, 64)
+	rng.Read(wide)
+	o.sharedBytes = append(o.sharedBytes, wide)
+	for i := 0; i < 2; i++ {
+		pe := ref.Serialize(o.base.P[10+i])
+		o.sharedBytes = append(o.sharedBytes, append([]byte(nil), pe[:]...))
+	}
 	return o
+}
+
+// decodeShared runs every decoder on the shared byte strings (read-only use of the inputs) and digests the results.
+func (o *opCtx) decodeShared(d *digester) {
+	for _, b := range o.sharedBytes {
+		var s1, s2, s3 fr.Element
+		s1.SetBytesLE(b)
+		s2.SetBytes(b)
+		_, err := s3.SetBytesLECanonical(b)
+		b1, b2 := s1.Bytes(), s2.Bytes()
+		d.add(b1[:])
+		d.add(b2[:])
+		d.addf("canonical err=%v", err != nil)
+		if rs, err := common.ReadScalar(bytes.NewReader(b)); err == nil && rs != nil {
+			rb := rs.Bytes()
+			d.add(rb[:])
+		} else {
+			d.addf("ReadScalar err")
+		}
+		var e banderwagon.Element
+		if err := e.SetBytes(b[:32]); err == nil {
+			d.elem(&e)
+		} else {
+			d.addf("SetBytes err")
+		}
+		if p, err := common.ReadPoint(bytes.NewBuffer(b)); err == nil && p != nil {
+			d.elem(p)
+		} else {
+			d.addf("ReadPoint err")
+		}
+	}
 }
 
 func (o *opCtx) rng(kind, k int) *rand.Rand {
@@ -908,6 +953,7 @@ func (o *opCtx) exec(kind, k int) string {
 			d.add(sb[:])
 			d.addf("%s %d", o.sharedScalars[i].String(), o.sharedScalars[i].Cmp(&o.sharedScalars[(i+1)%len(o.sharedScalars)]))
 		}
+		o.decodeShared(&d)
 		r1, err := ipa.MultiScalar(o.sharedPoints, o.sharedScalars)
 		d.addf("err=%v", err != nil)
 		d.elem(&r1)
